@@ -154,8 +154,11 @@ def gen_histories(s, cands, cfg, seed):
         pairs = {x for x in pairs if 1 <= x[0] < s.p.tail}
         pool.append((h, pairs))
     res, covered = [], set()
+    # deep stops and outer frames weigh more: (position, frame k) counts 1 + 2 * call depth of the position + k
+    def gain(ps):
+        return sum(1 + 2 * s.p.X[at - 1]["d"] + k for at, k in ps - covered)
     while pool and len(res) < cfg["nhist"]:
-        best = max(range(len(pool)), key=lambda k: len(pool[k][1] - covered))
+        best = max(range(len(pool)), key=lambda k: gain(pool[k][1]))
         h, pairs = pool.pop(best)
         if res and not (pairs - covered):
             break
